@@ -28,7 +28,10 @@ func init() {
 		NeedsCG:     true,
 		Rules: []core.Rule{
 			{ID: "C13-R1", Title: "no explicit panic controlled by peer input", Decides: "no bytes a peer can send make a handler panic", Floor: 3, Run: c13r1},
-			{ID: "C13-R2", Title: "slice and index bounds on peer bytes are proved", Decides: "truncated / short items do not panic", Floor: 4, Run: c13r2},
+			{ID: "C13-R2", Title: "slice and index bounds on peer bytes are proved", Decides: "truncated / short items do not panic", Floor: 4, Run: func(c *core.Ctx) {
+				c13r2(c)
+				inputIndexGuarded(c, "tlv8", "util", "hap/pair", "hap/endpoint", "hap", "crypto", "crypto/chacha20poly1305", "crypto/hkdf", "crypto/curve25519")
+			}},
 			{ID: "C13-R3", Title: "no single-value type assertion on decoded request values", Decides: "arbitrary JSON (wrong types) does not panic", Floor: 2, Run: c13r3},
 			{ID: "C13-R4", Title: "no lock leaked on a handler path", Decides: "the accessory is not wedged", Floor: 2, Run: c13r4},
 			{ID: "C13-R5", Title: "a wrong-state start request resets the controller", Decides: "after at most one rejected start request a correct handshake succeeds on the same connection", Floor: 2, Run: c13r5},
